@@ -868,6 +868,15 @@ func (p *Program) installVerif() {
 		}
 		return nil
 	}
+	// verifMaxLoop lowers the per-loop unwind bound for the rest of the path (harnesses whose
+	// loops are bounded by a short input use it so that a non-terminating loop is noticed fast)
+	v["verifMaxLoop"] = func(fr *frame, a []Value) Value {
+		n := fr.m.concreteInt(a[0], "loop bound")
+		if n > 0 {
+			fr.m.cfg.MaxLoop = n
+		}
+		return nil
+	}
 	v["verifSchedule"] = func(fr *frame, a []Value) Value {
 		fr.m.schedOn = a[0].(*Term).val == 1
 		if fr.m.schedOn {
